@@ -175,6 +175,16 @@ func checkCodec(m proto.Message) (failure string, labels map[string]int) {
 	if !proto.Equal(orig, m) {
 		return "Marshal changed the message", labels
 	}
+	// outputs handed out earlier must stay what they were (no aliasing of internal buffers)
+	for _, r := range recent {
+		if !bytes.Equal(r.out, r.snap) {
+			return fmt.Sprintf("an output returned by an earlier Marshal call (%d bytes) was overwritten by a later call: was % x, now % x", len(r.snap), r.snap, r.out), labels
+		}
+	}
+	recent = append(recent, held{out, append([]byte{}, out...)})
+	if len(recent) > 8 {
+		recent = recent[1:]
+	}
 	if len(out) < 6 || out[0] != 0xFD || out[1] != 0x7F {
 		return fmt.Sprintf("output does not start with the tag of field 2047 / 32-bit (FD 7F): % x", out[:min(len(out), 8)]), labels
 	}
@@ -380,6 +390,10 @@ func genMessage(rt *rapid.T) proto.Message {
 	return m.Interface()
 }
 
+type held struct{ out, snap []byte }
+
+var recent []held
+
 type failingCodec struct{ err error }
 
 func (f failingCodec) Marshal(v interface{}) ([]byte, error)   { return []byte("partial"), f.err }
@@ -435,6 +449,12 @@ func TestC19(t *testing.T) {
 			t.Fatalf("%s: %v", p, err)
 		}
 		cc, f, l := runOne(m)
+		for _, r := range roots {
+			// later Marshal calls must not disturb the output of the replayed one
+			if f == "" {
+				_, f, _ = runOne(r.ProtoReflect().New().Interface())
+			}
+		}
 		if f != "" {
 			cc.Failure, cc.Property = f, "C19"
 			hx.WriteReplay("C19", cc)
